@@ -154,7 +154,7 @@ class Pdrop(FilterPattern):
         first_inval = inval
         try:
             for _ in range(self.n):
-                inval = stream.next(first_inval)
+                stream.next(first_inval)
             while True:
                 inval = yield stream.next(inval)
         except stm.StopStream:
